@@ -22,9 +22,12 @@ THEOREMS = [
     "PorepyVerif.C31.point_in_polygon_eq_signed_crossings",
     "PorepyVerif.C31.point_in_polygon_crossing_odd",
     "PorepyVerif.C31.point_in_polygon_crossing_parity_spec",
+    "PorepyVerif.C31.pip_proved_answer_sound",
     "PorepyVerif.C31.collinear_spec",
     "PorepyVerif.C31.planar_exact",
     "PorepyVerif.C31.planar_spec",
+    "PorepyVerif.C31.collinear_proved_answer_sound",
+    "PorepyVerif.C31.planar_proved_answer_sound",
     "PorepyVerif.C31.half_space_spec",
     "PorepyVerif.C31.sort_point_pairs_chain",
     "PorepyVerif.C31.sort_point_pairs_cycle_complete",
@@ -57,6 +60,7 @@ TRUSTED = [
     "oracle-only (no Lean model): point_in_polyhedron and PointInPolyhedron (solid angles via arctan2, scipy Delaunay, uniquify_point_set, "
     "sort_triangle_edges), half_space_interior_point (scipy linprog), sort_point_plane in planes other than z = const (rotation by an irrational matrix before arctan2; planes z = const are modelled exactly), "
     "sort_triangle_edges; their oracle is exact rational geometry (ray casting with exact intersection tests, exact angular order)",
+    "oracle-only additions of this round: point_in_cell(if_make_planar=True) on polygons embedded in a skew plane; point_in_polyhedron with a single 1-d test point",
     "modelled, not verified (correspondence only): point_in_polygon where the vertical line through the point meets >= 4 edges and the crossing number is even "
     "(needs: a simple polygon has signed crossing number in {-1,0,1}) and in non-generic positions (a vertex exactly above/below the point) -- the theorems cover "
     "kernel points, separated points, the convex case, every polygon in generic position with <= 2 edges met, and 'odd crossing number => True' in general; "
@@ -74,17 +78,17 @@ EXPLANATION = ("CORE (partial): the predicates are modelled branch for branch ov
                "half-space membership (iff all inequalities), sort_point_pairs (every returned result is a valid chain; simple cycles AND simple open chains in any "
                "column order / flips are never rejected and come out as the walk from the first column / from an end point), sort_points_on_line (permutation; "
                "monotone in the line parameter), sort_point_plane in planes z = const (permutation; ordered by the exact arctan2 comparison, i.e. clockwise about the centre). Everything involving arctan2 / LP / Delaunay (polyhedron, plane sorting) and the Jordan-curve part of non-convex "
-               "point_in_polygon is tied by correspondence and an exact rational oracle only. Five defects found by this check were repaired in /repo (no open finding).")
+               "point_in_polygon is tied by correspondence and an exact rational oracle only. The hypotheses of the point_in_polygon / collinear / planar theorems are decidable input conditions that the driver evaluates on every case (pip_proved_answer_sound, collinear_proved_answer_sound, planar_proved_answer_sound: the theorem-backed answer is compared with the real code; the evidence counts these cases). Five defects found by this check were repaired in /repo (no open finding).")
 ASSUMPTIONS = ["inputs are small integers / dyadics, so the rational model and binary64 agree exactly on every compared (discrete) output",
                "query points of point_in_cell / polyhedra are either exactly on the boundary (documented answer) or at distance >= ~1e-2 from it; "
                "collinear/planar inputs are exactly degenerate or integer-far from degenerate (no input inside a tolerance band except where the band is the subject)"]
 
 KINDS = [
-    ("ccw_polyline", 8), ("ccw_polygon", 6), ("pip", 16), ("cell", 6), ("collinear", 9), ("planar", 9),
+    ("ccw_polyline", 8), ("ccw_polygon", 6), ("pip", 16), ("cell", 5), ("cell_planar", 2), ("collinear", 9), ("planar", 9),
     ("half_space", 7), ("hanging", 5), ("sort_pairs", 14), ("sort_multi", 4),
     ("polyhedron", 7), ("winding", 3), ("sort_plane", 3), ("sort_plane_xy", 3), ("sort_line", 4), ("tri_edges", 4), ("hs_interior", 2),
 ]
-ORACLE_ONLY = {"polyhedron", "winding", "sort_plane", "tri_edges", "hs_interior"}
+ORACLE_ONLY = {"polyhedron", "winding", "sort_plane", "tri_edges", "hs_interior", "cell_planar"}
 
 
 # ----------------------------------------------------------------------------- exact rational geometry (oracle side)
@@ -530,11 +534,51 @@ def _in_band(case):
     return False
 
 
+def _scale_pts(pts, s):
+    return [[frac(F(x) * s) for x in p] for p in pts]
+
+
+def _strata(rng, c):
+    """explicit corner-case strata: extreme scale (exact powers of two), duplicated vertices, sizes 0/1; tags are counted in stats()"""
+    k, tags = c["kind"], []
+    if k in ("pip", "cell", "ccw_polygon", "half_space", "ccw_polyline") and rng.random() < 0.1:
+        s = F(2) ** rng.choice([-30, -20, 20, 30])
+        if k in ("pip", "cell"):
+            c["poly"], c["pts"] = _scale_pts(c["poly"], s), _scale_pts(c["pts"], s)
+        elif k == "ccw_polygon":
+            c["poly"] = _scale_pts(c["poly"], s)
+        elif k == "half_space":
+            c["x0"], c["pts"] = _scale_pts(c["x0"], s), _scale_pts(c["pts"], s)
+        else:
+            c["p1"], c["p2"] = _scale_pts([c["p1"]], s)[0], _scale_pts([c["p2"]], s)[0]
+            c["p3"], c["tol"] = _scale_pts(c["p3"], s), frac(F(c["tol"]) * s * s)
+        tags.append("extreme-scale")
+    if k in ("pip", "cell", "ccw_polygon") and rng.random() < 0.07:
+        i = rng.randrange(len(c["poly"]))
+        c["poly"] = c["poly"][: i + 1] + [list(c["poly"][i])] + c["poly"][i + 1:]
+        tags.append("duplicated-vertex")
+    if k == "polyhedron" and rng.random() < 0.12:
+        c["pts"], c["one_d"] = c["pts"][:1], True
+        tags.append("single-point-1d")
+    n = {"ccw_polygon": lambda: len(c["poly"]), "collinear": lambda: len(c["pts"]), "sort_pairs": lambda: len(c["lines"]),
+         "sort_line": lambda: len(c["pts"]), "half_space": lambda: min(len(c["n"]), len(c["pts"])), "ccw_polyline": lambda: len(c["p3"]),
+         "sort_multi": lambda: len(c["chains"][0])}.get(k)
+    if n is not None and n() <= 1:
+        tags.append("size-0-1")
+    if k == "sort_pairs" and c["circular"] is None:
+        tags.append("is_circular-None")
+    if k in ("collinear", "planar") and len({tuple(p) for p in c["pts"]}) < len(c["pts"]):
+        tags.append("duplicate-points")
+    if tags:
+        c["strata"] = tags
+    return c
+
+
 def gen_case(rng, tier):
     while True:
         c = _gen_case(rng, tier)
         if not _in_band(c):
-            return c
+            return _strata(rng, c)
         DROPPED[0] += 1
 
 
@@ -580,6 +624,16 @@ def _gen_case(rng, tier):
             return {"kind": kind, "poly": _fr2(poly), "pts": _fr2(pts), "cls": cls}
         return {"kind": kind, "poly": _fr2(poly), "pts": _fr2(pts), "default": rng.random() < 0.4, "cls": cls,
                 "one_d": len(pts) == 1 and rng.random() < 0.5}
+    if kind == "cell_planar":
+        poly, cls = _gen_polygon(rng)
+        P = [[F(x) for x in p] for p in poly]
+        pts = [p for p in _query_points_2d(rng, poly, 6) if classify_pip(P, p) != "bd"][:4] or [[F(99), F(99)]]
+        rp = lambda: [rng.randint(-2, 2) for _ in range(3)]
+        while True:
+            o, u, v = rp(), rp(), rp()
+            if cross3(u, v) != [0, 0, 0]:
+                break
+        return {"kind": kind, "poly": _fr2(poly), "pts": _fr2(pts), "o": o, "u": u, "v": v, "cls": cls}
     if kind == "collinear":
         n = rng.choice([1, 2, 3, 3, 4, 4, 5, 6])
         rp = lambda: [rng.randint(-6, 6) for _ in range(3)]
@@ -701,6 +755,8 @@ def _gen_case(rng, tier):
             else:  # figure eight / repeated lines
                 lines = _gen_chain(rng, max(k, 3), True)
                 lines = _scramble(rng, lines + [list(rng.choice(lines))])
+        if not circ and rng.random() < 0.15:
+            circ = None  # Optional[bool]: None takes the non-circular branch
         extra = None
         if rng.random() < 0.3:
             extra = [rng.randint(0, 35) for _ in lines] if rng.random() < 0.5 else [100 + j for j in range(len(lines))]
@@ -861,6 +917,13 @@ def _call(case):
         for q in case["pts"]:
             out.append(bool(gpc.point_in_cell(poly, np.array([float(F(q[0])), float(F(q[1])), 0.0]), if_make_planar=False)))
         return out
+    if kind == "cell_planar":
+        o, u, v = case["o"], case["u"], case["v"]
+        emb = lambda q: [float(o[c] + F(q[0]) * u[c] + F(q[1]) * v[c]) for c in range(3)]
+        poly = np.array([emb(q) for q in case["poly"]]).T
+        with warnings.catch_warnings():
+            warnings.simplefilter("ignore")
+            return [bool(gpc.point_in_cell(poly.copy(), np.array(emb(q)), if_make_planar=True)) for q in case["pts"]]
     if kind == "collinear":
         return gpc.points_are_collinear(_arr(case["pts"]), tol=float(F(case["tol"])))
     if kind == "planar":
@@ -888,7 +951,8 @@ def _call(case):
     if kind == "polyhedron":
         with warnings.catch_warnings():
             warnings.simplefilter("ignore")
-            return gpc.point_in_polyhedron(_faces_arrays(case), _arr(case["pts"]))
+            tp = _arr(case["pts"])
+            return gpc.point_in_polyhedron(_faces_arrays(case), tp[:, 0] if case.get("one_d") else tp)
     if kind == "winding":
         t = _sorted_tris(case)
         obj = pp.point_in_polyhedron.PointInPolyhedron(np.array(case["v"], dtype=float), t, 1e-10)
@@ -967,7 +1031,7 @@ def model_ops(case):
         p = [list(q) + ["0"] * (3 - len(q)) for q in case["p"]]
         return [{"op": kind, "p": p, "edges": case["edges"], "tol": case["tol"]}]
     if kind == "sort_pairs":
-        return [{"op": kind, "lines": case["lines"], "check": case["check"], "circular": case["circular"]}]
+        return [{"op": kind, "lines": case["lines"], "check": case["check"], "circular": bool(case["circular"])}]
     if kind == "sort_multi":
         return [{"op": kind, "chains": case["chains"]}]
     if kind == "sort_line":
@@ -977,7 +1041,29 @@ def model_ops(case):
     raise AssertionError(kind)
 
 
+COVER = {"pip_points": 0, "pip_theorem_backed": 0}
+
+
 def compare(impl, model, case):
+    if case["kind"] == "pip" and isinstance(model, dict) and "proved" in model:
+        # `proved` = answer PROVED for this input by the theorems (pip_proved_answer_sound), null if no theorem applies
+        proved = model["proved"]
+        model = {"r": model["r"]}
+        if isinstance(impl, dict) and "r" in impl:
+            COVER["pip_points"] += len(proved)
+            COVER["pip_theorem_backed"] += sum(1 for x in proved if x is not None)
+            for k, (x, y) in enumerate(zip(proved, impl["r"])):
+                if x is not None and x != y:
+                    return f"point {k}: the theorems prove {x}, the implementation returned {y}"
+    if case["kind"] in ("collinear", "planar") and isinstance(model, dict) and "proved" in model:
+        proved = model["proved"]
+        model = {"r": model["r"]}
+        if isinstance(impl, dict) and "r" in impl:
+            COVER[case["kind"] + "_cases"] = COVER.get(case["kind"] + "_cases", 0) + 1
+            if proved is not None:
+                COVER[case["kind"] + "_theorem_backed"] = COVER.get(case["kind"] + "_theorem_backed", 0) + 1
+                if proved != impl["r"]:
+                    return f"the theorems prove {proved}, the implementation returned {impl['r']}"
     d = deep_compare(impl, model)
     if d and case["kind"] == "sort_line" and isinstance(impl, dict) and isinstance(model, dict) and "r" in impl and "r" in model:
         # two points equally far from the centroid: np.argmax on rounded norms may pick the other one as
@@ -1086,7 +1172,7 @@ def oracle(case):
             if bool(r) != want:
                 return fail(f"point {[str(x) for x in q]} is '{c}' of polygon {case['poly']} (default={case['default']}), returned {bool(r)}", "boundary" if c == "bd" else ("inside-missed" if c == "in" else "outside-accepted"))
         return None
-    if kind == "cell":
+    if kind in ("cell", "cell_planar"):
         if exc:
             return fail(f"raised {exc!r}", "raises")
         poly = _P(case["poly"])
@@ -1172,7 +1258,8 @@ def oracle(case):
     if kind == "sort_pairs":
         lines = case["lines"]
         gc = _graph_class(lines)
-        circ, check = case["circular"], case["check"] and case["circular"]
+        circ = bool(case["circular"])
+        check = case["check"] and circ
         must_work = (gc == "cycle" and circ) or (gc == "path" and not circ)
         if case["extra"] is not None:
             # the extra data row must not influence the sorting: same outcome as without it
@@ -1357,6 +1444,10 @@ def stats(cases, impl_outs):
             kk = f"{k}:{c['cls']}"
             out[kk] = out.get(kk, 0) + 1
     out["dropped_near_tolerance_band"] = DROPPED[0]
+    out.update(COVER)
+    for c in cases:
+        for st in c.get("strata", []):
+            out["stratum:" + st] = out.get("stratum:" + st, 0) + 1
     out["impl_errors"] = sum(1 for o in impl_outs if isinstance(o, dict) and "err" in o)
     out["true_answers"] = sum(1 for o in impl_outs if isinstance(o, dict) and (o.get("r") is True or (isinstance(o.get("r"), list) and any(x is True for x in o["r"]))))
     return out
